@@ -27,7 +27,7 @@ class C26(Check):
     components = {"real": ["ioflo.aio.tcp.serving.Server", "ioflo.aio.tcp.serving.ServerTls", "Incomer / IncomerTls"],
                   "stub": ["socket module", "TLS record layer", "peers (raw scripted endpoints)"]}
     assumptions = ["same peer address can be accepted twice while the old socket is still held (measured on Linux loopback with a fixed source port and abortive close)"]
-    required_probes = ["addr-reuse-while-stale", "remove", "tls", "plain"]
+    required_probes = ["addr-reuse-while-stale", "remove", "tls", "plain", "closeIx"]
     quick_runs = 20000
     thorough_runs = 1000000
     shrink_fields = ["ops"]
@@ -49,7 +49,8 @@ class C26(Check):
             elif r < 0.75:
                 ops.append([g.choice(["service", "service", "serviceAll"])])
             elif r < 0.90:
-                ops.append(["remove", g.randint(0, 2)])
+                # removeIx, or closeIx: the entry is closed but stays in the table (a stale entry without a socket)
+                ops.append([g.choice(["remove", "remove", "closeIx"]), g.randint(0, 2)])
             else:
                 ops.append(["send", g.randint(0, 3)])
         return {"tls": g.random() < 0.4, "pool": [50001, 50002, 50003][:g.choice([1, 2, 2, 3])], "ops": ops}
@@ -156,6 +157,12 @@ class C26(Check):
                     pump_peers()
                     ok = call("serviceConnects", srv.serviceConnects)
                     pump_peers()
+                elif code == "serviceAll" and any(ix.cs is None for ix in list(srv.ixes.values())):
+                    # an entry the application closed with closeIx but did not remove: receiving / sending on it is outside the
+                    # statement (the library dereferences the missing socket); only the accepting side is serviced
+                    pump_peers()
+                    ok = call("serviceConnects", srv.serviceConnects)
+                    pump_peers()
                 elif code == "serviceAll":
                     pump_peers()
                     try:
@@ -185,10 +192,16 @@ class C26(Check):
                             if ca in srv.ixes:
                                 fail("remove-still-present", "removeIx(%r) left the entry" % (ca,))
                                 ok = False
-                            if model.get(ca) is sock:
+                            if sock is not None and model.get(ca) is sock:
                                 del model[ca]
                     else:
                         ok = call("closeIx", lambda: srv.closeIx(ca))
+                        out.probe("closeIx")
+                        if ok and sock is not None and not sock.closed:
+                            fail("remove-not-closed", "closeIx(%r) left its socket open" % (ca,))
+                            ok = False
+                        if ok and sock is not None and model.get(ca) is sock:
+                            del model[ca]       # the connection is gone; its entry (now without a socket) may stay until it is removed or replaced
                 if not ok:
                     break
                 # invariants after every step
